@@ -42,6 +42,9 @@ NPQ_KERNELS = [
     dict(name="Bench_Rastrigin_f", file=B, cls="Rastrigin", func="f", cos2pi="cs"),
     # Griewank.f: `np.cos(x / sqrt_i)` with sqrt_i = sqrt(1..D) is the function parameter `csi i a` (= cos(a / sqrt(i+1)), i the column)
     dict(name="Bench_Griewank_f", file=B, cls="Griewank", func="f", cos_sqrt_idx="csi"),
+    # HighConditionedElliptic.f: the condition weights `1e6 ** ((i - 1) / (D - 1))`, i = 1..D, are the function parameter `cw D j` (column j = i - 1;
+    # for D = 1 the real exponent is 0/0)
+    dict(name="Bench_Elliptic_f", file=B, cls="HighConditionedElliptic", func="f", cond_weights="cw"),
     # jDE's parameter regeneration (C15): which entries are redrawn (the mask of the first draw against the rate) and from what
     # (the second draw, affinely mapped for F); `uniform(0, 1, size=n)` is the function parameter `draw <ordinal> n`
     dict(name="jDE_get_mutate_F", file="optimizers/_jde.py", cls="jDE", func="_get_mutate_F", params=[], ret="VQ",
@@ -523,6 +526,30 @@ class TrQ:
             if (ka, kb) != ("VQ", "S1"):
                 raise NotRecognised("< operand kinds")
             return f"(NpQ.ltMask {a} {b})", "MB"
+        if self.cfg.get("cond_weights"):
+            # i = np.arange(1, M.shape[1] + 1)  (kind IDX1)  and  D = M.shape[1]  (kind DIM): only ever used inside the weight expression
+            if isinstance(e, ast.Call) and is_np(e.func, "arange") and len(e.args) == 2 and not e.keywords and is_const(e.args[0], 1) \
+                    and ast.unparse(e.args[1]).endswith(".shape[1] + 1") and self.env.get(ast.unparse(e.args[1])[:-13]) == "Q":
+                return ast.unparse(e.args[1])[:-13], "IDX1"
+            if isinstance(e, ast.Subscript) and ast.unparse(e).endswith(".shape[1]") and self.env.get(ast.unparse(e)[:-9]) == "Q":
+                return ast.unparse(e)[:-9], "DIM"
+            # (1000000.0 ** ((i - 1) / (D - 1))) * <array of the same M>: column j of the array is multiplied by `cw D j`
+            if isinstance(e, ast.BinOp) and isinstance(e.op, ast.Mult) and isinstance(e.left, ast.BinOp) and isinstance(e.left.op, ast.Pow) \
+                    and isinstance(e.left.left, ast.Constant) and e.left.left.value == 1e6:
+                ex = e.left.right
+                ok = isinstance(ex, ast.BinOp) and isinstance(ex.op, ast.Div) \
+                    and isinstance(ex.left, ast.BinOp) and isinstance(ex.left.op, ast.Sub) and isinstance(ex.left.left, ast.Name) and is_const(ex.left.right, 1) \
+                    and isinstance(ex.right, ast.BinOp) and isinstance(ex.right.op, ast.Sub) and isinstance(ex.right.left, ast.Name) and is_const(ex.right.right, 1)
+                if not ok:
+                    raise NotRecognised("weight exponent " + ast.unparse(ex))
+                iv, dv = ex.left.left.id, ex.right.left.id
+                if self.env.get(iv) != "IDX1" or self.env.get(dv) != "DIM" or self.sqi_of.get(iv) != self.sqi_of.get(dv):
+                    raise NotRecognised("weight operands")
+                x, k = self.E(e.right)
+                if k != "Q" or self.root_of(e.right) != self.sqi_of[iv]:
+                    raise NotRecognised("weighted operand")
+                cw = self.cfg["cond_weights"]
+                return f"(NpQ.mapIdxCols (fun j a => {cw} {self.sqi_of[iv]}.ncols j * a) {x})", "Q"
         if self.cfg.get("cos_sqrt_idx"):
             # np.sqrt(np.arange(1, M.shape[1] + 1)): the square roots of 1..D for the D columns of M (kind SQI, never evaluated by itself)
             if isinstance(e, ast.Call) and is_np(e.func, "sqrt") and len(e.args) == 1 and not e.keywords:
@@ -684,6 +711,13 @@ class TrQ:
                         return f"(NpQ.map {self.cfg['cos2pi']} {x})", k
         raise NotRecognised("expression " + ast.unparse(e)[:60])
 
+    @staticmethod
+    def root_of(e):
+        """the array an elementwise expression `M ** n` is built from (its shape is M's)"""
+        if isinstance(e, ast.BinOp) and isinstance(e.op, ast.Pow) and isinstance(e.left, ast.Name):
+            return e.left.id
+        return e.id if isinstance(e, ast.Name) else None
+
     def _kind(self, e):
         """kind of an expression without emitting anything"""
         saved = (list(self.lines), self.n, self.draws)
@@ -753,6 +787,10 @@ class TrQ:
             if not (isinstance(st, ast.Assign) and len(st.targets) == 1 and isinstance(st.targets[0], ast.Name)):
                 raise NotRecognised("statement " + ast.unparse(st)[:60])
             x, k = self.E(st.value)
+            if k in ("IDX1", "DIM"):
+                self.sqi_of[st.targets[0].id] = x
+                self.env[st.targets[0].id] = k
+                continue
             if k == "SQI":
                 # the root vector is only ever used inside np.cos(M / sqrt_i): remember which array it belongs to, emit nothing
                 self.sqi_of[st.targets[0].id] = x
@@ -767,7 +805,7 @@ class TrQ:
             raise NotRecognised("returned kind")
         self.lines.append(f"  return {x}")
         lean_k = {"Q": "NpQ.Mat", "VQ": "List Rat", "N": "Nat", "S1": "Rat"}
-        params = ([f"({cfg['cos2pi']} : Rat → Rat)"] if cfg.get("cos2pi") else []) + ([f"({cfg['cos_sqrt_idx']} : Nat → Rat → Rat)"] if cfg.get("cos_sqrt_idx") else []) + (["(draw : Nat → Nat → List Rat)"] if self.draws else []) \
+        params = ([f"({cfg['cos2pi']} : Rat → Rat)"] if cfg.get("cos2pi") else []) + ([f"({cfg['cos_sqrt_idx']} : Nat → Rat → Rat)"] if cfg.get("cos_sqrt_idx") else []) + ([f"({cfg['cond_weights']} : Nat → Nat → Rat)"] if cfg.get("cond_weights") else []) + (["(draw : Nat → Nat → List Rat)"] if self.draws else []) \
             + [f"(self{a} : {lean_k[k_]})" for a, k_ in cfg.get("self_attrs", [])] + [f"({p} : {lean_k[k_]})" for p, k_ in plist]
         cls_txt = (cfg["cls"] + ".") if cfg["cls"] else ""
         ret_ty = "Rat" if cfg.get("ret") == "S1" else "List Rat"
